@@ -169,6 +169,13 @@ structure Cols (m n : Nat) (b : Type) where
 def take_cols {b : Type} {m n : Nat} (x : A2 m n b) (mask : A1 n Bool) : Cols m n b := ⟨x.v, mask.v⟩
 def sum_kept {b : Type} {m n : Nat} [Add b] [OfNat b 0] (x : Cols m n b) : A1 m b :=
   ⟨fun i => sumFin fun j => if x.keep j then x.v i j else 0⟩
+/-- `np.sum(x)` without an axis: the total of a numeric vector, the number of `True`s of a boolean one -/
+class SumAll (X : Type) (Y : outParam Type) where
+  sumAll : X → Y
+instance {n : Nat} : SumAll (A1 n Bool) (A0 Nat) := ⟨fun x => ⟨countFin x.v⟩⟩
+instance (priority := low) {b : Type} {n : Nat} [Add b] [OfNat b 0] : SumAll (A1 n b) (A0 b) := ⟨fun x => ⟨sumFin x.v⟩⟩
+def sum_all {X Y : Type} [SumAll X Y] (x : X) : Y := SumAll.sumAll x
+
 /-- `np.any(x)` over the whole array, as the truth value an `if` tests -/
 class AnyAll (X : Type) where
   anyAll : X → Bool
